@@ -348,3 +348,103 @@ def classes_of_program(forms):
                 walk(v, b2)
     walk(forms, set())
     return sorted(out)
+
+
+# ---- C01: core forms only -------------------------------------------------------------------
+def core_program(rng):
+    g = Gen(rng, ticks=True, derived=False, forbid={"atom-key"})
+    top = Scope()
+    forms = []
+    templates = rng.sample(["adder", "count", "compose", "varsum", "internal", "apply", "plain", "plain", "plain"], rng.randint(3, 6))
+    for t in templates:
+        if t == "adder":        # closures of order 3
+            a, b, c = rng.sample(NAMES, 3)
+            forms.append(define("adder", lam([a], [lam([b], [lam([c], [app("+", var(a), var(b), var(c))])])])))
+            forms.append(app(app(app("adder", lit(rng.randint(-5, 5))), tick(g.lab(), lit(rng.randint(-5, 5)))), lit(rng.randint(-5, 5))))
+            top.vars["adder"] = "opaque"
+        elif t == "count":      # recursion on a decreasing counter (non-tail and tail)
+            n, acc = rng.sample(NAMES, 2)
+            forms.append(define("count", lam([n, acc], [if_(app("=", var(n), lit(0)), var(acc), app("count", app("-", var(n), lit(1)), app("+", var(acc), var(n))))])))
+            forms.append(define("fact", lam([n], [if_(app("<", var(n), lit(2)), lit(1), app("*", var(n), app("fact", app("-", var(n), lit(1)))))])))
+            forms.append(app("list", app("count", lit(rng.randint(0, 12)), lit(0)), app("fact", lit(rng.randint(0, 7)))))
+        elif t == "compose":    # higher-order procedures
+            f_, g_, x_ = rng.sample(NAMES, 3)
+            forms.append(define("compose", lam([f_, g_], [lam([x_], [app(var(f_), app(var(g_), var(x_)))])])))
+            inc, _ = g.lambda_(["int"], "int", False, top, 2, True)
+            dbl, _ = g.lambda_(["int"], "int", False, top, 2, True)
+            forms.append(app(app("compose", inc, dbl), lit(rng.randint(-5, 5))))
+            forms.append(app("map", app("compose", var("car"), var("cdr")), quote(vlist([vlist([vint(1), vint(2)]), vlist([vint(3), vint(4), vint(5)])]))))
+        elif t == "varsum":     # rest parameters
+            a, r_ = rng.sample(NAMES, 2)
+            forms.append(define("varsum", lam([a], [app("cons", var(a), app("apply", var("+"), var(r_)))], rest=r_)))
+            k = rng.randint(0, 4)
+            forms.append(app("varsum", *[lit(rng.randint(-5, 5)) for _ in range(k + 1)]))
+            forms.append(app("apply", var("varsum"), lit(1), app("list", *[lit(rng.randint(-5, 5)) for _ in range(rng.randint(0, 3))])))
+            forms.append(define("allargs", lam([], [var(r_)], rest=r_)))
+            forms.append(app("allargs", *[lit(rng.randint(-5, 5)) for _ in range(rng.randint(0, 4))]))
+        elif t == "internal":
+            p = rng.choice(NAMES)
+            f, ty = g.lambda_(["int", "list"], rng.choice(["int", "list"]), rng.random() < 0.4, top, 3, True)
+            name = g.fresh(top, PROCNAMES)
+            forms.append(define(name, f))
+            top.vars[name] = ty
+            forms.append(g.call(var(name), ty, top, 2, True))
+        elif t == "apply":
+            f, ty = g.lambda_(["int", "int"], "int", False, top, 2, True)
+            forms.append(app("apply", f, app("list", lit(rng.randint(-5, 5)), lit(rng.randint(-5, 5)))))
+            forms.append(app("apply", f, lit(rng.randint(-5, 5)), quote(vlist([vint(rng.randint(-5, 5))]))))
+        else:
+            if rng.random() < 0.4:
+                t_ = rng.choice(["int", "list", "bool"])
+                name = g.fresh(top)
+                forms.append(define(name, g.expr(t_, top, rng.randint(1, 4))))
+                top.vars[name] = t_
+            else:
+                forms.append(g.expr(rng.choice(["int", "list", "bool", "sym"]), top, rng.randint(2, 4)))
+    return forms
+
+
+# ---- C08: a valid program with one injected fault -------------------------------------------
+FAULTS = {
+    "NonProcedure": lambda r: app(lit(r.randint(0, 9)), lit(1)),
+    "ArityMany": lambda r: app(lam(["fa"], [var("fa")]), lit(1), lit(2)),
+    "ArityFew": lambda r: app(lam(["fa", "fb"], [var("fa")]), lit(1)),
+    "ArityNamed": lambda r: app("proc-one", lit(1), lit(2)),
+    "ArityNamedFew": lambda r: app("proc-one"),
+    "ArityRest": lambda r: app(lam(["fa", "fb"], [var("fa")], rest="fr"), lit(1)),
+    "ArityPrim": lambda r: app("cons", lit(1)),
+    "ArityApply": lambda r: app("apply", var("proc-one"), quote(vlist([vint(1), vint(2)]))),
+    "UnboundRead": lambda r: var("undefined-variable"),
+    "UnboundAssign": lambda r: set_("undefined-variable", lit(1)),
+    "WrongType": lambda r: r.choice([app("car", lit(5)), app("+", lit(1), lit(True)), app("vector-ref", lit(0), lit(0)), app("cdr", quote(NIL))]),
+    "IndexRange": lambda r: r.choice([app("vector-ref", app("vector", lit(1), lit(2)), lit(2)), app("vector-set!", app("vector", lit(1)), lit(-1), lit(0)),
+                                      app("vector-ref", quote(vlit([])), lit(0))]),
+    "ImmutableVector": lambda r: app("vector-set!", quote(vlit([vint(1), vint(2)])), lit(0), lit(9)),
+    "DivByZero": lambda r: r.choice([app("/", lit(1), lit(0)), app("/", lit(0)), app("floor-quotient", lit(3), lit(0)), app("/", lit(4), lit(2), lit(0))]),
+}
+
+
+def inject_fault(rng, forms):
+    """replace one expression in a sequenced position (body / begin / clause body / top level) by a fault;
+    positions whose evaluation order relative to other effects is unspecified are never chosen"""
+    import copy
+    from .shrink import paths, put, get
+    forms = copy.deepcopy(forms)
+    spots = [p for p, node in paths(forms) if isinstance(node, list) and p and p[-1] in ("body", "es") and len(node) >= 1]
+    kind = rng.choice(sorted(FAULTS))
+    fault = FAULTS[kind](rng)
+    if rng.random() < 0.5:
+        fault = begin(tick(900), fault)
+    pre = [define("proc-one", lam(["z"], [var("z")]))]
+    if not spots or rng.random() < 0.15:
+        i = rng.randrange(len(forms) + 1)
+        return pre + forms[:i] + [fault] + forms[i:], kind
+    for _ in range(20):
+        p = rng.choice(spots)
+        node = get(forms, p)
+        i = rng.randrange(len(node))
+        new = node[:i] + [fault] + node[i:] if rng.random() < 0.5 else node[:i] + [fault] + node[i + 1:]
+        out = put(forms, p, new)
+        if S.wf(out):          # (an arrow clause has exactly one expression, ...)
+            return pre + out, kind
+    return pre + forms + [fault], kind
